@@ -105,6 +105,72 @@ def lemma(seed):
 import time
 
 
+def native_python_loop_nan():
+    """the non-jitted training loop of solve (taken when `obs_batch_sharding` is given): a NaN update at iteration K of
+    n_iter stops training after K, later history entries stay untouched, the parameters before K are returned — the same
+    as the jitted loop on the same program"""
+    import numpy as np, warnings, optax
+    import equinox as eqx
+    import jinns
+    from jinns.parameters import Params
+
+    class Dyn(jinns.loss.ODE):
+        def equation(self, t, u, params):
+            return u(t, params) - jnp.sin(3 * t)
+
+    def nan_at(k):
+        def init(p):
+            return jnp.zeros((), dtype=jnp.int32)
+        def update(u, st, p=None):
+            bad = st == k
+            return jax.tree_util.tree_map(lambda x: jnp.where(bad, jnp.nan * x, x), u), st + 1
+        return optax.GradientTransformation(init, update)
+    K, n_iter = 3, 8
+    out = {}
+    with warnings.catch_warnings():
+        warnings.simplefilter("ignore")
+        for mode in ("jitted", "python_loop"):
+            u = jinns.utils.create_PINN(jax.random.PRNGKey(0), ((eqx.nn.Linear, 1, 4), (jnp.tanh,), (eqx.nn.Linear, 4, 1)), "ODE")
+            params = Params(nn_params=u.init_params(), eq_params={})
+            loss = jinns.loss.LossODE(u=u, dynamic_loss=Dyn(), params=params,
+                                      loss_weights=jinns.loss.LossWeightsODE(dyn_loss=1.0, observations=1.0))
+            g = jinns.data.DataGeneratorODE(jax.random.PRNGKey(1), 12, 0.0, 1.0, 4)
+            tab = jnp.linspace(0.0, 1.0, 8)[:, None]
+            shard = jax.sharding.SingleDeviceSharding(jax.devices()[0])
+            kw = dict(sharding_device=shard) if mode == "python_loop" else {}
+            og = jinns.data.DataGeneratorObservations(jax.random.PRNGKey(2), 4, tab, jnp.sin(3 * tab), **kw)
+            extra = dict(obs_batch_sharding=shard) if mode == "python_loop" else {}
+            r = jinns.solve(n_iter=n_iter, init_params=params, data=g, loss=loss, optimizer=optax.chain(optax.sgd(1e-2), nan_at(K)),
+                            obs_data=og, verbose=False, **extra)
+            out[mode] = (np.asarray(r[1]), jax.tree_util.tree_leaves(r[0]))
+    hj, hp = out["jitted"][0], out["python_loop"][0]
+    if not np.allclose(hj, hp, equal_nan=True, rtol=1e-5, atol=1e-7):
+        return [f"NaN update at iteration {K} of {n_iter} with obs_batch_sharding (non-jitted loop): loss history {np.round(hp, 4).tolist()}, "
+                f"the jitted loop on the same program gives {np.round(hj, 4).tolist()} (entries after the failing iteration must stay untouched)"]
+    if any(np.isnan(np.asarray(x)).any() for x in out["python_loop"][1]) or not all(
+            np.allclose(np.asarray(a), np.asarray(b), rtol=1e-5, atol=1e-7) for a, b in zip(out["jitted"][1], out["python_loop"][1])):
+        return ["NaN update with obs_batch_sharding (non-jitted loop): the returned parameters are not those held before the failing iteration"]
+    return None
+
+
+def python_loop_ob():
+    name = "C18/solve/ensures.stop_and_untouched_tail[non_jitted_loop(obs_batch_sharding),bounded]"
+    def run(seed):
+        t0 = time.time()
+        try:
+            wit = native_python_loop_nan()
+        except Exception as e:
+            return dict(status="undecided", backend="native(bounded)", bounded=True, solver_s=time.time() - t0,
+                        detail="native monitor failed: " + repr(e)[:300], replay=dict(native_disagrees=False))
+        if wit:
+            return dict(status="violated", failure="value", backend="native(bounded)", bounded=True, solver_s=time.time() - t0, detail=wit[0],
+                        replay=dict(native_disagrees=True, native=wit[0], inputs=dict(n_iter=8, nan_at_iteration=3),
+                                    expected="the histories and parameters of the jitted loop on the same program"))
+        return dict(status="discharged", backend="native(bounded)", bounded=True, solver_s=time.time() - t0,
+                    sample="one program: NaN update at iteration 3 of 8, jitted loop vs non-jitted loop", replay=dict(native_disagrees=False))
+    return FnObligation(name, run, [SM + "solve", SM + "_get_break_fun.break_fun"])
+
+
 def obligations(tier):
     obs = [check_nan_ob(), check_nan_ob("float32"), check_nan_ob("float16"), check_nan_ob("bfloat16")]
     n_iters = (3,) if tier == "quick" else (1, 2, 3, 5)
@@ -139,4 +205,7 @@ def obligations(tier):
         o.name = o.name.replace("C07/", "C18/")
         obs.append(o)
     obs.append(FnObligation("C18/lemma/invariant_and_exit", lemma, [SM + "solve"]))
+    # the step / guard contracts above are those of the loop body whichever loop runs it; that the non-jitted loop (taken
+    # with obs_batch_sharding) hands the *current* carry to the guard is checked natively (bounded)
+    obs.append(python_loop_ob())
     return obs
